@@ -34,8 +34,8 @@ class Canon19(fingerprint.Canon):
 
 
 class CliWorld(ConnWorld):
-    def __init__(self) -> None:
-        super().__init__(client=True, keepalive=1e6, expected_name="dev", login=False)
+    def __init__(self, noise: bool = False, login: bool = False) -> None:
+        super().__init__(client=True, keepalive=1e6, expected_name="dev", login=login, noise=noise, password="pw" if login else None)
         self.viol: list[str] = []
         self.inflight: dict[str, str] = {}  # task name -> kind, attempt calls accepted and not yet returned
         self.between = False
@@ -203,11 +203,21 @@ class CliHarness:
             if label == "hello":
                 m = w.hello_resp()
                 w.hello_on.add(s.fd)
+            elif label == "hello_badpw":
+                w.io_chunk(s, w.dframe(w.hello_resp()) + w.dframe(w.connect_resp(invalid=True)))
+                m = None
             elif label == "hello_badver":
                 m = w.hello_resp(major=3, minor=0)
             else:
                 m = w.hello_resp(name="other")
-            w.io_chunk(s, w.dframe(m))
+            if m is not None:
+                data = w.dframe(m)
+                if label == "hello" and w.login:
+                    data += w.dframe(w.connect_resp())
+                w.io_chunk(s, data)
+        elif label == "nh":
+            io = True
+            w.io_chunk(w.live_sock(), w.noise_handshake_bytes())
         elif label == "eof":
             io = True
             w.io_eof(w.live_sock())
@@ -236,7 +246,7 @@ class CliHarness:
             w.between = False
             w.inflight[name] = kind
             w.finish_owner[name] = w.session_call or name
-            w.spawn(name, lambda: w.client.finish_connection(login=False))
+            w.spawn(name, lambda: w.client.finish_connection(login=w.login))
             return
         must_accept = not w.inflight and not w.between and not w.alive
         must_refuse = bool(w.inflight) or w.alive
@@ -414,6 +424,10 @@ STAGES: dict[str, tuple[str, ...]] = {
     "after-disconnect": ("start", "tcp_ok", "finish", "hello", "disc", "time"),
     "after-force-disconnect": ("start", "tcp_ok", "finish", "hello", "force"),
     "after-disconnect-between-phases": ("start", "tcp_ok", "disc"),
+    # a device that rejects the password: the attempt must fail, and nothing may be treated as an authenticated session afterwards
+    "after-invalid-password": ("login", "start", "tcp_ok", "finish", "hello_badpw"),
+    "after-invalid-password-noise": ("login", "noise", "start", "tcp_ok", "finish", "nh", "hello_badpw"),
+    "waiting-for-login-noise": ("login", "noise", "start", "tcp_ok", "finish", "nh"),
 }
 
 
@@ -467,10 +481,16 @@ def surface_sweep(res: Result) -> dict[str, Any]:
     methods = set()
     for stage, labels in STAGES.items():
         for meth, kwargs in calls:
-            w = CliWorld()
+            w = CliWorld(noise="noise" in labels, login="login" in labels)
             try:
                 for lab in labels:
+                    if lab in ("noise", "login"):
+                        continue
                     h.apply(w, lab)
+                if w.alive and "invalid-password" in stage:
+                    res.add(f"C19:surface:{stage}:session", f"stage '{stage}': the device flagged the password invalid, yet the client reports an "
+                            "established session (every command would now be written to a device that never authenticated it)", {"stage": stage})
+                    break
                 if w.alive or w.viol:
                     raise HarnessError(f"stage {stage} did not end without a session: alive={w.alive} {w.viol}")
                 before = w.total_sent()
